@@ -126,7 +126,8 @@ def gen_argv(r, clog):
             cs.remove(r.choice(["power_ts3", "power_ts4"]))
         argv += ["-C"] + cs        # possibly empty: -C with no values -> []
     if r.random() < 0.5:
-        argv += ["-c", clog]
+        # -c takes one log, a comma separated list (one per rank) or a pattern
+        argv += ["-c", r.choice([clog, clog, clog + "," + clog, os.path.join(os.path.dirname(clog), "sample_comp_log_*.txt")])]
     for s in SWITCHES:
         if r.random() < 0.3:
             argv.append(s)
@@ -157,6 +158,38 @@ def gen_profile(r, everything):
     return 2, sub or [("no_such_stage", True)]
 
 
+def switches_request(argv):
+    """stages the command line ASKS for, read from the switches alone (the documented meaning of the options, not the
+    guards of register_processing_functions): (stage name, why)"""
+    a = list(argv)
+    counters = None
+    if "-C" in a:
+        i = a.index("-C")
+        counters = []
+        for x in a[i + 1:]:
+            if x.startswith("-"):
+                break
+            counters.append(x)
+    if counters is None:
+        counters = ["power_ts4", "coll_bw", "prep_queue", "rcu_util"]     # the default counter set
+    req = []
+    if "--flow" in a:
+        req += [("flow_prepare_event_data", "--flow"), ("flow_extraction", "--flow")]
+    if "-c" in a and "rcu_util" in counters:
+        req += [("compute_utilization_fingerprints", "-c <log> with the rcu_util counter"),
+                ("compute_utilization", "-c <log> with the rcu_util counter")]
+    if "--drop_globals" in a:
+        req.append(("drop_global_events", "--drop_globals"))
+    if "--comm_summarize_seq" in a:
+        req += [("communication_event_collection", "--comm_summarize_seq"),
+                ("communication_event_apply", "--comm_summarize_seq")]
+    if "-F" in a:
+        req.append(("processing_filter", "-F"))
+    if "prep_queue" in counters:
+        req.append(("queueing_counter", "prep_queue counter"))
+    return req
+
+
 def oracle(case, impl, regs, everything_names):
     """independent statement of the property on the implementation's record.
     (a) all-enabled profile: the stage list IS the list of register_stage calls.
@@ -179,6 +212,10 @@ def oracle(case, impl, regs, everything_names):
                       "observed_disabled": [n for n, f in prof if not f][:6],
                       "history": "earlier Acelyzer objects of this process (e.g. one built with --tb)"})]
     if all(f for _, f in prof):
+        for name, why in switches_request(argv):
+            if name not in stages:
+                return [("stage_requested_by_a_switch_is_not_in_the_pipeline",
+                         {"expected": name, "because": why, "observed": stages[:0] + [n for n in stages if n[:3] == name[:3]]})]
         if req != stages:
             return [("requested_stage_skipped_under_all_enabled_profile",
                      {"expected": req, "observed": stages,
